@@ -4,18 +4,33 @@ import json,os,glob
 ROOT=os.path.dirname(os.path.dirname(os.path.abspath(__file__)))
 print('| change | breaks | what it is | own check | other checks run against it |')
 print('|---|---|---|---|---|')
+tot=own_caught=0
 for d in sorted(glob.glob(os.path.join(ROOT,'seeded','C*'))):
     mp=os.path.join(d,'meta.json')
     if not os.path.exists(mp): continue
     m=json.load(open(mp)); sid=os.path.basename(d); prop=m['property']
     def fmt(p):
-        es=m.get('checks',{}).get(p,[])
-        if not es: return 'not run'
-        c=sum(1 for e in es if e['result']=='caught'); n=len(es)
-        t=sorted(e['seconds'] for e in es if e['result']=='caught')
-        s='caught %d/%d'%(c,n) if n>1 else ('caught' if c else 'MISSED')
-        if t: s+=' (%d s)'%t[len(t)//2]
+        es=[e for e in m.get('checks',{}).get(p,[]) if e['result'] in ('caught','missed')]
+        fin=[e for e in es if e.get('generators')=='final']
+        old=[e for e in es if e.get('generators')!='final']
+        use=fin or es
+        if not use: return 'not run'
+        parts=[]
+        for tier in ('quick','thorough'):
+            te=[e for e in use if e['tier']==tier]
+            if not te: continue
+            c=sum(1 for e in te if e['result']=='caught'); n=len(te)
+            t=sorted(e['seconds'] for e in te if e['result']=='caught')
+            s=('caught %d/%d'%(c,n) if n>1 else ('caught' if c else 'MISSED'))
+            if t: s+=' (%d s)'%t[len(t)//2]
+            if tier=='thorough' or any(e['tier']=='thorough' for e in use): s=tier+': '+s
+            parts.append(s)
+        s='; '.join(parts)
+        if fin and old and any(e['result']!='caught' for e in old) and all(e['result']=='caught' for e in fin): s+=' [missed before the generator changes]'
         return s
     own=fmt(prop)
+    tot+=1; own_caught+= ('caught' in own and 'MISSED' not in own.split(';')[0])
     others='; '.join('%s: %s'%(p,fmt(p)) for p in sorted(m.get('checks',{})) if p!=prop) or '-'
-    print('| %s | %s | %s | %s | %s |'%(sid,prop,m.get('short',m['title']),own,others))
+    print('| %s | %s | %s | %s | %s |'%(sid,prop,m.get('short',m['title']).replace('|','\\|'),own,others))
+import sys
+print('\n%d changes; quick tier of the own check reports %d'%(tot,own_caught),file=sys.stderr)
